@@ -91,7 +91,7 @@ def run(ctx):
                 'NumPy and Dask; shift arrays of every prefix rank with matching or length-1 axes, values integer / fractional / |s|>=N / '
                 'mixed sign / tiny / rational, as numbers, arrays or time Quantities; crop False and True; malformed: too many dims, '
                 'non-broadcastable shapes. non-trivial: at least one non-zero shift; distinct by (class, N, shapes, values, dtype).')
-    ctx.trusted = ['Coq 8.16.1 kernel; stdlib real-number axioms for the value theorems over C; vm_compute on primitive floats',
+    ctx.trusted = ['translator T6 translate/py_shift2coq.py (loop body, accumulation, crop, ramp sign of time_shift; every other statement pinned)', 'Coq 8.16.1 kernel; stdlib real-number axioms for the value theorems over C; vm_compute on primitive floats',
                    'scipy.fft = the mathematical DFT (validated numerically against an O(N^2) longdouble oracle on every case)',
                    'numpy broadcasting / nditer order as transcribed in Model/Shift.v (validated by the exact zero-mask comparison)']
     ctx.assumptions = ['values within 2e-6*max|x| (float64 data; the complex64 phase ramp of the code is the accuracy floor) / 8e-6 (single)',
